@@ -348,14 +348,18 @@ func runScript(r *vk.Run, rng *rand.Rand, tag string, cfg Cfg, steps []*Step, ns
 				break
 			}
 			s = steps[i]
+			if s.Kind == "mkrepl" {
+				// a valid exported transaction chained on the store's current state (directed scripts)
+				s = w.replStep(rand.New(rand.NewSource(int64(7+i))), s.Ts, s.Note)
+			}
 		} else {
 			if i >= nsteps {
 				break
 			}
-			s = w.nextStep(rng)
+			s = w.safeNext(rng)
 		}
 		before := w.discards
-		term, fatal := w.exec(s)
+		term, fatal := w.execSafe(s)
 		done = append(done, s)
 		if term != "" {
 			terms = append(terms, term)
@@ -373,6 +377,27 @@ func runScript(r *vk.Run, rng *rand.Rand, tag string, cfg Cfg, steps []*Step, ns
 	js := map[string]any{"tag": tag, "cfg": cfg, "steps": done, "violation": w.violated, "committed": committedTxs}
 	r.Case(coq, js, bucketPfx+cfg.bucket()+fmt.Sprintf("/tx%02d", committedTxs/5*5), committedTxs >= 3 && interesting)
 	return nil
+}
+
+func (w *world) safeNext(rng *rand.Rand) (s *Step) {
+	defer func() {
+		if r := recover(); r != nil {
+			w.finding("store-panic: choosing the next step panicked: %v", r)
+			s = &Step{Kind: "sync"}
+		}
+	}()
+	return w.nextStep(rng)
+}
+
+// execSafe: a Go panic inside the store (main goroutine) ends the script with a finding
+func (w *world) execSafe(s *Step) (term string, fatal bool) {
+	defer func() {
+		if r := recover(); r != nil {
+			w.finding("store-panic: step %s panicked: %v", s.Kind, r)
+			term, fatal = "", true
+		}
+	}()
+	return w.exec(s)
 }
 
 // Gen: n sequential scripts + the concurrent phase.
